@@ -84,73 +84,260 @@ __CPROVER_ensures(FSTK_KEEP(vg_k))
 #endif /* VERIF_CT_REGISTER */
 
 /* =======================================================================================
- * VERIF_CT_CALLEES — declared contracts (weak but true) of functions owned by other units
+ * VERIF_CT_CALLEES — DECLARED contracts (weak but true) of functions owned by other units.
+ *
+ * Functions whose definition is NOT in conf.c (strings.c, file.c) are given as MODEL FUNCTIONS:
+ * a body that asserts the contract's precondition, havocs exactly its assigns targets and
+ * assumes its postcondition — the same semantics goto-instrument gives a call replaced by its
+ * contract, without a per-call-site write set (each replaced call costs DFCC several arrays
+ * indexed by object number; with the dozen call sites of parse_line the SAT instance had 20M
+ * variables).  Functions defined in conf.c itself (spifconf_shell_expand, spifconf_open_file,
+ * the register_* pushes) carry real contracts and are used with --replace-call-with-contract.
  * ======================================================================================= */
 #ifdef VERIF_CT_CALLEES
-/* ghosts: env_conf.h (vgc.st: the chomped line vg_line = spec-level snapshot of the first 16 bytes of the text chomp
+/* ghosts: env_conf.h (vg_st: the chomped line vg_line = spec-level snapshot of the first 16 bytes of the text chomp
  * leaves behind; vg_gw_len, vg_se_len) */
-
-#define VLINE_SNAP(i) (!((size_t) (i) < VREMAIN(s)) || vg_line[i] == s[i])
-/* spiftool_chomp (strings.c, C13): removes leading and trailing white space in place.
- * ASSUMES (as for libc string functions): s holds a NUL at or after s. */
-spif_charptr_t spiftool_chomp(spif_charptr_t s)
-__CPROVER_requires(s != NULL && __CPROVER_rw_ok(s, 1))
-__CPROVER_assigns(__CPROVER_object_whole(s), vg_line, vgc.ev)
-__CPROVER_ensures(__CPROVER_return_value == s)
-__CPROVER_ensures(vg_seq == __CPROVER_old(vg_seq) + 1 && vg_t_chomp == vg_seq)
-/* result starts with a non-blank (or is empty); the ghost snapshot equals the text */
-__CPROVER_ensures(!VSPACE(s[0]))
-__CPROVER_ensures(VLINE_SNAP(0) && VLINE_SNAP(1) && VLINE_SNAP(2) && VLINE_SNAP(3) && VLINE_SNAP(4) && VLINE_SNAP(5) && VLINE_SNAP(6) && VLINE_SNAP(7))
-__CPROVER_ensures(VLINE_SNAP(8) && VLINE_SNAP(9) && VLINE_SNAP(10) && VLINE_SNAP(11) && VLINE_SNAP(12) && VLINE_SNAP(13) && VLINE_SNAP(14) && VLINE_SNAP(15))
-;
-
 #define VPLAINCH(c) ((c) != 0 && !VSPACE(c) && (c) != '\"' && (c) != '\'')
+
+/* spiftool_chomp (strings.c, C13): removes leading and trailing white space in place.
+ *   requires  s != NULL, s writable (ASSUMES, as for libc string functions: s holds a NUL at or after s)
+ *   assigns   the object of s; ghosts vg_line, vg_seq, vg_t_chomp
+ *   ensures   returns s; the text starts with a non-blank (or is empty); vg_line[i] == s[i] for the first 16 bytes */
+spif_charptr_t spiftool_chomp(spif_charptr_t s)
+{
+    __CPROVER_assert(s != NULL && __CPROVER_rw_ok(s, 1), "chomp contract: s writable");
+    __CPROVER_havoc_object(s);
+    size_t n = nondet_size_t();
+    __CPROVER_assume(n < VREMAIN(s));
+    s[n] = 0;                                   /* still a C string */
+    __CPROVER_assume(!VSPACE(s[0]));
+    vg_seq++;
+    vg_t_chomp = vg_seq;
+#define VLINE_SNAP(i) vg_line[i] = ((size_t) (i) < VREMAIN(s)) ? s[i] : 0;
+    VLINE_SNAP(0) VLINE_SNAP(1) VLINE_SNAP(2) VLINE_SNAP(3) VLINE_SNAP(4) VLINE_SNAP(5) VLINE_SNAP(6) VLINE_SNAP(7)
+    VLINE_SNAP(8) VLINE_SNAP(9) VLINE_SNAP(10) VLINE_SNAP(11) VLINE_SNAP(12) VLINE_SNAP(13) VLINE_SNAP(14) VLINE_SNAP(15)
+    return s;
+}
+
 /* spiftool_get_word (strings.c, C12): index-th word as a fresh heap string, NULL if there are
  * fewer words.  The two non-NULL guarantees are the ones parse_line relies on:
  *  - word 1 exists as soon as the string is not empty (the scanning loop runs once);
  *  - word 2 exists when the string starts with five plain characters and a blank ("begin X"):
- *    the loop is entered a second time because str[5] != 0. */
+ *    the loop is entered a second time because str[5] != 0.
+ *   requires  str != NULL, readable;  assigns nothing (ghost vg_gw_len);
+ *   ensures   NULL or a fresh C string of length vg_gw_len */
 spif_charptr_t spiftool_get_word(unsigned long index, const spif_charptr_t str)
-__CPROVER_requires(str != NULL && __CPROVER_r_ok(str, 1))
-__CPROVER_assigns(vg_gw_len)
-__CPROVER_ensures(__CPROVER_return_value == NULL ||
-                  (vg_gw_len <= VCAP && __CPROVER_is_fresh(__CPROVER_return_value, vg_gw_len + 1) && __CPROVER_return_value[vg_gw_len] == 0))
-__CPROVER_ensures(!(index == 1 && str[0] != 0) || __CPROVER_return_value != NULL)
-__CPROVER_ensures(!(index == 2 && VPLAINCH(str[0]) && VPLAINCH(str[1]) && VPLAINCH(str[2]) && VPLAINCH(str[3]) && VPLAINCH(str[4]) && VSPACE(str[5]))
-                  || __CPROVER_return_value != NULL)
-;
+{
+    __CPROVER_assert(str != NULL && __CPROVER_r_ok(str, 1), "get_word contract: str readable");
+    _Bool must = (index == 1 && str[0] != 0) ||
+                 (index == 2 && VPLAINCH(str[0]) && VPLAINCH(str[1]) && VPLAINCH(str[2]) && VPLAINCH(str[3]) && VPLAINCH(str[4]) && VSPACE(str[5]));
+    if (!must && nondet_bool()) return (spif_charptr_t) NULL;
+    size_t n = nondet_size_t();
+    __CPROVER_assume(n <= VCAP);
+    spif_charptr_t r = (spif_charptr_t) malloc(n + 1);
+    r[n] = 0;
+    vg_gw_len = n;
+    return r;
+}
 /* spiftool_get_pword (strings.c, C12): pointer INTO str at the index-th word, NULL if there
- * is none; a leading plain character is word 1 itself. */
+ * is none; a leading plain character is word 1 itself.
+ *   requires  str != NULL, readable;  assigns nothing;
+ *   ensures   NULL, or a pointer into the C string str to a non-NUL byte;
+ *             index == 1 and str[0] plain  ==>  result == str */
 spif_charptr_t spiftool_get_pword(unsigned long index, const spif_charptr_t str)
-__CPROVER_requires(str != NULL && __CPROVER_r_ok(str, 1))
-__CPROVER_assigns()
-__CPROVER_ensures(__CPROVER_return_value == NULL ||
-                  (__CPROVER_same_object(__CPROVER_return_value, str) &&
-                   __CPROVER_POINTER_OFFSET(__CPROVER_return_value) >= __CPROVER_POINTER_OFFSET(str) &&
-                   __CPROVER_r_ok(__CPROVER_return_value, 1) && *__CPROVER_return_value != 0))
-__CPROVER_ensures(!(index == 1 && VPLAINCH(str[0])) || __CPROVER_return_value == str)
-;
+{
+    __CPROVER_assert(str != NULL && __CPROVER_r_ok(str, 1), "get_pword contract: str readable");
+    if (index == 1 && VPLAINCH(str[0])) return (spif_charptr_t) str;
+    if (str[0] == 0) return (spif_charptr_t) NULL;          /* the empty string has no words */
+#if defined(VERIF_PWORD1_PRESENT)
+    /* behaviour split: a first word exists (the unit C11.parse_line_bare_pct covers the other case) */
+    if (index != 1 && nondet_bool()) return (spif_charptr_t) NULL;
+#elif defined(VERIF_PWORD1_ABSENT)
+    if (index == 1 || nondet_bool()) return (spif_charptr_t) NULL;
+#else
+    if (nondet_bool()) return (spif_charptr_t) NULL;
+#endif
+    size_t n = strlen((const char *) str);      /* a NUL position of str (env.h) */
+    size_t off = nondet_size_t();
+    __CPROVER_assume(off < n);
+    __CPROVER_assume(str[off] != 0);
+    return (spif_charptr_t) str + off;
+}
+/* spiftool_temp_file (file.c; proved in C11.temp_file): descriptor or -1; ftemplate rewritten
+ * (at most len bytes, NUL-terminated); spawns nothing.
+ *   requires  ftemplate != NULL, len > 0, len bytes writable;  assigns the object of ftemplate, ghosts vg_tf;
+ *   ensures   result >= -1; ftemplate holds a NUL within len bytes */
+int spiftool_temp_file(spif_charptr_t ftemplate, size_t len)
+{
+    __CPROVER_assert(ftemplate != NULL && len > 0 && __CPROVER_rw_ok(ftemplate, len), "temp_file contract: ftemplate holds len bytes");
+    __CPROVER_havoc_object(ftemplate);
+    size_t n = nondet_size_t();
+    __CPROVER_assume(n < len);
+    ftemplate[n] = 0;
+    vg_tpl_len = n;
+    vg_umask_calls += 2; vg_mkstemp_calls++; vg_fchmod_calls += nondet_bool() ? 1 : 0;
+    int fd = nondet_int();
+    __CPROVER_assume(fd >= -1);
+    return fd;
+}
+
 /* spifconf_shell_expand (conf.c, C10, owner expand): rewrites s in place with the expansion
  * (at most CONFIG_BUFF-1 characters, copied back with strcpy: s must have CONFIG_BUFF bytes).
  * Spawns a process only after reading a backquote or matching %exec( . */
 spif_charptr_t spifconf_shell_expand(spif_charptr_t s)
 __CPROVER_requires(s != NULL && VREMAIN(s) >= CONFIG_BUFF && __CPROVER_rw_ok(s, CONFIG_BUFF))
-__CPROVER_assigns(__CPROVER_object_whole(s), spifconf_vars, vg_se_len, vgc.ev, vgc.sp)
+__CPROVER_assigns(__CPROVER_object_whole(s), spifconf_vars, vg_se_len, vg_ev, vg_sp)
 __CPROVER_ensures(__CPROVER_return_value == s || __CPROVER_return_value == NULL)
 __CPROVER_ensures(vg_se_len < CONFIG_BUFF && s[vg_se_len] == 0)
 __CPROVER_ensures(vg_seq == __CPROVER_old(vg_seq) + 1 && vg_t_expand == vg_seq && vg_t_chomp == __CPROVER_old(vg_t_chomp))
 __CPROVER_ensures(vg_saw_preproc == __CPROVER_old(vg_saw_preproc))
 __CPROVER_ensures(vg_spawned == __CPROVER_old(vg_spawned) || vg_saw_bq != __CPROVER_old(vg_saw_bq) || vg_saw_exec != __CPROVER_old(vg_saw_exec))
 ;
-/* spiftool_temp_file (file.c; proved in C11.temp_file): descriptor or -1; ftemplate rewritten
- * (at most len bytes, NUL-terminated); spawns nothing. */
-int spiftool_temp_file(spif_charptr_t ftemplate, size_t len)
-__CPROVER_requires(ftemplate != NULL && len > 0 && __CPROVER_rw_ok(ftemplate, len))
-__CPROVER_assigns(__CPROVER_object_whole(ftemplate), vgc.tf)
-__CPROVER_ensures(__CPROVER_return_value >= -1)
-__CPROVER_ensures(vg_tpl_len < len && ftemplate[vg_tpl_len] == 0)
-;
 #endif /* VERIF_CT_CALLEES */
+
+/* =======================================================================================
+ * VERIF_CONF_PUSH_MODELS — models of the two stack pushes for callers (re-binding 6c of
+ * env_conf.h).  Same clauses as the contracts above (VERIF_CT_REGISTER), which C09.register_*
+ * prove for the real functions; the preserved entries are the ghost entry vg_k and, for the
+ * context stack, the entry below the new top (callee role, see CTXSTK_KEEP).
+ * ======================================================================================= */
+#ifdef VERIF_CONF_PUSH_MODELS
+static unsigned char v_ctx_push(unsigned char ctx_id)
+{
+    /* requires CTXSTK_INV */
+    __CPROVER_assert(ctx_state_cnt >= 1 && ctx_state_cnt <= 512 && ctx_state_idx < ctx_state_cnt &&
+                     __CPROVER_rw_ok(ctx_state, sizeof(ctx_state_t) * (size_t) ctx_state_cnt) && __CPROVER_POINTER_OFFSET(ctx_state) == 0,
+                     "register_context_state contract: CTXSTK_INV");
+    unsigned char old_idx = ctx_state_idx;
+    ctx_state_t keep_k, keep_top = ctx_state[old_idx];
+    _Bool has_k = vg_k <= old_idx;
+    if (has_k) keep_k = ctx_state[vg_k];
+    /* assigns ctx_state, ctx_state_idx, ctx_state_cnt, the table; frees ctx_state */
+    unsigned int cnt = nondet_uint();
+    __CPROVER_assume(cnt >= 1 && cnt <= 512);
+    if (nondet_bool()) {
+        free(ctx_state);
+        ctx_state = (ctx_state_t *) malloc(sizeof(ctx_state_t) * (size_t) cnt);
+    } else {
+        __CPROVER_assume(cnt == ctx_state_cnt);
+        __CPROVER_havoc_object(ctx_state);
+    }
+    ctx_state_cnt = cnt;
+    ctx_state_idx = (unsigned char) ((old_idx + 1) % 256);
+    /* ensures CTXSTK_POST, new top initialised, kept entries */
+    __CPROVER_assume(ctx_state_idx < ctx_state_cnt);
+    ctx_state[ctx_state_idx].ctx_id = ctx_id;
+    ctx_state[ctx_state_idx].state = NULL;
+    if (old_idx != 255) {
+        if (has_k) ctx_state[vg_k] = keep_k;
+        ctx_state[old_idx] = keep_top;
+    }
+    return ctx_state_idx;
+}
+static unsigned char v_file_push(FILE *fp, spif_charptr_t path, spif_charptr_t outfile, unsigned long line, unsigned char flags)
+{
+    /* requires FSTK_INV && fstate_idx < 255 && fp != NULL && path != NULL && line fits 32 bits */
+    __CPROVER_assert(fstate_cnt >= 1 && fstate_cnt <= 512 && fstate_idx < fstate_cnt &&
+                     __CPROVER_rw_ok(fstate, sizeof(fstate_t) * (size_t) fstate_cnt) && __CPROVER_POINTER_OFFSET(fstate) == 0,
+                     "register_fstate contract: FSTK_INV");
+    __CPROVER_assert(fstate_idx < 255, "register_fstate contract: fstate_idx < 255");
+    __CPROVER_assert(fp != NULL && path != NULL && line <= 0xffffffffUL, "register_fstate contract: fp, path not NULL, line fits");
+    unsigned char old_idx = fstate_idx;
+    fstate_t keep_k;
+    _Bool has_k = vg_k <= old_idx;
+    if (has_k) keep_k = fstate[vg_k];
+    unsigned int cnt = nondet_uint();
+    __CPROVER_assume(cnt >= 1 && cnt <= 512);
+    if (nondet_bool()) {
+        free(fstate);
+        fstate = (fstate_t *) malloc(sizeof(fstate_t) * (size_t) cnt);
+    } else {
+        __CPROVER_assume(cnt == fstate_cnt);
+        __CPROVER_havoc_object(fstate);
+    }
+    fstate_cnt = cnt;
+    fstate_idx = (unsigned char) (old_idx + 1);
+    __CPROVER_assume(fstate_idx < fstate_cnt);
+    fstate[fstate_idx].fp = fp;
+    fstate[fstate_idx].path = path;
+    fstate[fstate_idx].outfile = outfile;
+    fstate[fstate_idx].line = (spif_uint32_t) line;
+    fstate[fstate_idx].flags = flags;
+    if (has_k) fstate[vg_k] = keep_k;
+    return fstate_idx;
+}
+#endif
+
+/* =======================================================================================
+ * VERIF_CONF_CALL_MODELS — models of spifconf_shell_expand / spifconf_open_file for callers.
+ * Bound to the call sites by a goto-instrument --replace-calls pre-pass (unit header `prepass:`),
+ * i.e. on the goto program, not on the source text.  Same clauses as the contracts
+ * (VERIF_CT_CALLEES: shell_expand, declared; VERIF_CT_OPEN_FILE: proved in C11.open_file).
+ * ======================================================================================= */
+#ifdef VERIF_CONF_CALL_MODELS
+spif_charptr_t v_m_shell_expand(spif_charptr_t s)
+{
+    __CPROVER_assert(s != NULL && VREMAIN(s) >= CONFIG_BUFF && __CPROVER_rw_ok(s, CONFIG_BUFF), "shell_expand contract: s holds CONFIG_BUFF bytes");
+    __CPROVER_havoc_object(s);
+    size_t n = nondet_size_t();
+    __CPROVER_assume(n < CONFIG_BUFF);
+    s[n] = 0;
+    vg_se_len = n;
+    spifconf_vars = nondet_ptr();
+    vg_seq++;
+    vg_t_expand = vg_seq;
+    if (nondet_bool()) {
+        /* a process may be spawned only together with one of the two ghost flags */
+        if (nondet_bool()) vg_saw_bq++; else vg_saw_exec++;
+        if (nondet_bool()) vg_spawned++;
+    }
+    return nondet_bool() ? s : (spif_charptr_t) NULL;
+}
+FILE *v_m_open_file(spif_charptr_t name)
+{
+    __CPROVER_assert(name == NULL || __CPROVER_r_ok(name, 1), "open_file contract: name readable");
+    /* assigns vg_fg, vg_open_streams */
+    unsigned long b = nondet_ulong();
+    __CPROVER_assume(b <= vg_fg_budget);
+    vg_fg_budget = b;
+    vg_fg_nl = nondet_bool(); vg_fg_len = nondet_size_t(); vg_fg_buf = nondet_ptr(); vg_fg_ok = nondet_bool(); vg_fg_hdr = nondet_bool();
+    if (name == NULL || fstate_idx >= 255 || nondet_bool()) {
+        return (FILE *) NULL;           /* vg_fg_mid, vg_deliverable, vg_open_streams unchanged */
+    }
+    vg_fg_mid = 0;
+    vg_open_streams++;
+    return (FILE *) malloc(sizeof(FILE));
+}
+#endif
+
+/* =======================================================================================
+ * VERIF_CONF_REALLOC — realloc model for units that run the REAL register_* pushes inside a
+ * caller (spifconf_parse_line).  OVER-APPROXIMATION of realloc, in the style of env.h's
+ * single-ghost-element model: the new block is fresh with ARBITRARY contents, except that for
+ * the two parser stacks the entries a caller can still need are copied: the ghost entry vg_k
+ * (arbitrary, hence "every entry") and the entry just below the new top (ctx_peek_last_state()
+ * reads it; the index was already incremented when realloc runs).  The old block is freed.
+ * ======================================================================================= */
+#ifdef VERIF_CONF_REALLOC
+void *realloc(void *p, size_t n)
+{
+    if (p == NULL) return malloc(n);
+    __CPROVER_assert(__CPROVER_POINTER_OFFSET(p) == 0, "realloc: pointer is the start of a block");
+    void *r = malloc(n);
+    size_t m = __CPROVER_OBJECT_SIZE(p);
+    if (n < m) m = n;
+    if (p == (void *) ctx_state) {
+        if (vg_k < m / sizeof(ctx_state_t)) ((ctx_state_t *) r)[vg_k] = ((ctx_state_t *) p)[vg_k];
+        if (ctx_state_idx >= 1 && (size_t) (ctx_state_idx - 1) < m / sizeof(ctx_state_t))
+            ((ctx_state_t *) r)[ctx_state_idx - 1] = ((ctx_state_t *) p)[ctx_state_idx - 1];
+    } else if (p == (void *) fstate) {
+        if (vg_k < m / sizeof(fstate_t)) ((fstate_t *) r)[vg_k] = ((fstate_t *) p)[vg_k];
+        if (vg_k2 < m / sizeof(fstate_t)) ((fstate_t *) r)[vg_k2] = ((fstate_t *) p)[vg_k2];
+    }
+    free(p);
+    return r;
+}
+#endif
 
 /* =======================================================================================
  * VERIF_CT_LOOKUP — the loop of ctx_name_to_id as a function (re-binding 6b of env_conf.h)
@@ -164,15 +351,16 @@ __CPROVER_ensures(vg_tpl_len < len && ftemplate[vg_tpl_len] == 0)
  * validity obligations of strcasecmp.  vg_k is arbitrary, so every slot is checked.
  * ======================================================================================= */
 #ifdef VERIF_CT_LOOKUP
-/* ghosts: env_conf.h (vgc.lk) */
+/* ghosts: env_conf.h (vg_lkp) */
 
+#ifndef VERIF_LOOKUP_MODEL
 static unsigned long v_ctx_lookup(spif_charptr_t n)
 {
     unsigned long i;
     int r = 1;
 
     for (i = 0; i <= ctx_idx; i++)
-    __CPROVER_assigns(i, r, vgc.lk)
+    __CPROVER_assigns(i, r, vg_lkp)
     __CPROVER_loop_invariant(i <= (unsigned long) ctx_idx + 1)
     __CPROVER_loop_invariant(r != 0)
     __CPROVER_loop_invariant(!(vg_k < i) || vg_lk_at_k != 0)
@@ -192,16 +380,38 @@ static unsigned long v_ctx_lookup(spif_charptr_t n)
     vg_lk_hit = r;
     return i;
 }
+#else
+/* MODEL of v_ctx_lookup for callers (same text as the contract below, which C09.ctx_lookup proves for the
+ * real loop): assert the precondition, havoc vg_lkp, assume the postcondition. */
+static unsigned long v_ctx_lookup(spif_charptr_t n)
+{
+    __CPROVER_assert(n != NULL && __CPROVER_r_ok(n, 1), "v_ctx_lookup contract: name readable");
+    __CPROVER_assert(vg_k > ctx_idx || (context[vg_k].name != NULL && __CPROVER_r_ok(context[vg_k].name, 1)),
+                     "v_ctx_lookup contract: context[vg_k].name is a C string");
+    unsigned long r = nondet_ulong();
+    __CPROVER_assume(r <= (unsigned long) ctx_idx + 1);
+    vg_cmp_last = nondet_int();
+    vg_lk_at_k = nondet_int();
+    vg_lk_hit = nondet_int();
+    __CPROVER_assume(r > ctx_idx || vg_lk_hit == 0);
+    __CPROVER_assume(r <= ctx_idx || vg_lk_hit != 0);
+    __CPROVER_assume(!(vg_k < r) || vg_lk_at_k != 0);
+    vg_lk = r;
+    return r;
+}
+#endif
+#ifndef VERIF_LOOKUP_MODEL
 static unsigned long v_ctx_lookup(spif_charptr_t n)
 __CPROVER_requires(CTXTAB_INV && VCSTR_FRESH(n, vg_n1))
 __CPROVER_requires(CTXNAME_AT(vg_k))
-__CPROVER_assigns(vgc.lk)
+__CPROVER_assigns(vg_lkp)
 __CPROVER_ensures(__CPROVER_return_value <= (unsigned long) ctx_idx + 1 && vg_lk == __CPROVER_return_value)
 /* a returned index inside the table is a match; every earlier slot did not match */
 __CPROVER_ensures(__CPROVER_return_value > ctx_idx || vg_lk_hit == 0)
 __CPROVER_ensures(__CPROVER_return_value <= ctx_idx || vg_lk_hit != 0)
 __CPROVER_ensures(!(vg_k < __CPROVER_return_value) || vg_lk_at_k != 0)
 ;
+#endif
 #endif /* VERIF_CT_LOOKUP */
 
 
@@ -213,9 +423,8 @@ __CPROVER_ensures(!(vg_k < __CPROVER_return_value) || vg_lk_at_k != 0)
 #ifdef VERIF_CT_OPEN_FILE
 FILE *spifconf_open_file(spif_charptr_t name)
 __CPROVER_requires(name == NULL || __CPROVER_r_ok(name, 1))
-__CPROVER_requires(libast_program_name != NULL && __CPROVER_r_ok(libast_program_name, 1))
-__CPROVER_requires(libast_program_version != NULL && __CPROVER_r_ok(libast_program_version, 1))
-__CPROVER_assigns(vgc.fg, vg_open_streams)
+__CPROVER_assigns(vg_fg, vg_open_streams)
+__CPROVER_ensures(__CPROVER_return_value == NULL || name != NULL)
 __CPROVER_ensures(__CPROVER_return_value == NULL ? vg_open_streams == __CPROVER_old(vg_open_streams)
                   : (vg_open_streams == __CPROVER_old(vg_open_streams) + 1 && fstate_idx < 255 &&
                      __CPROVER_is_fresh(__CPROVER_return_value, sizeof(FILE))))
@@ -254,7 +463,8 @@ __CPROVER_ensures(__CPROVER_return_value == NULL ? vg_fg_mid == __CPROVER_old(vg
 #define PL_STATE0       (__CPROVER_old(ctx_state[ctx_state_idx].state))
 #define PL_ID0          (__CPROVER_old(ctx_state[ctx_state_idx].ctx_id))
 #define PL_NLOG0        (__CPROVER_old(vg_nlog))
-#define PL_LOG(n)       (vg_log[(PL_NLOG0 + (n)) % VLOG_MAX])
+/* the most recent handler call (file mode: at most one per line) */
+#define PL_LOG(n)       (vg_hl.c##n)
 #define PL_NOCALL       (vg_nlog == PL_NLOG0)
 #define PL_ONECALL      (vg_nlog == PL_NLOG0 + 1)
 #define PL_CTX_SAME     (ctx_state_idx == PL_DEPTH0 && ctx_state[ctx_state_idx].state == PL_STATE0 && ctx_state[ctx_state_idx].ctx_id == PL_ID0)
@@ -267,43 +477,64 @@ __CPROVER_ensures(__CPROVER_return_value == NULL ? vg_fg_mid == __CPROVER_old(vg
 /* "every file on the stack from slot 1 up has a stream", at the ghost slot */
 #define FSFP_AT(J)      ((J) < 1 || (J) > fstate_idx || fstate[(J)].fp != NULL)
 
+/* ---- behaviour split -------------------------------------------------------------------
+ * PL_EXC: the line is a %preproc directive in a file that has ALREADY been preprocessed.  On this
+ * path conf.c tests the wrong `fp` (the uninitialised FILE *fp of the %preproc block shadows the
+ * parameter inside SPIFCONF_PARSE_RET()) — finding C09-preproc-shadow-fp.  The general contract
+ * makes no C09 promise for this behaviour and tells its caller so through the ghost vg_exc; the unit
+ * C09.parse_line_preproc_again (U_PL_EXC) enforces the full postconditions on exactly this behaviour
+ * (and fails: known finding).  Memory-safety obligations are never excused. */
+#define PL_PREPROC_AGAIN ((__CPROVER_old(fstate[fstate_idx].flags) & FILE_PREPROC) != 0 && vg_saw_preproc != __CPROVER_old(vg_saw_preproc))
+#ifdef U_PL_EXC
+# define PL_ENS(x)   __CPROVER_ensures(x)
+# define PL_BEHAVIOUR __CPROVER_requires((fstate[fstate_idx].flags & FILE_PREPROC) != 0)
+#else
+# define PL_ENS(x)   __CPROVER_ensures(PL_PREPROC_AGAIN || (x))
+# define PL_BEHAVIOUR
+#endif
+
 void spifconf_parse_line(FILE *fp, spif_charptr_t buff)
 /* ---- preconditions: the call site in spifconf_parse (line buffer of CONFIG_BUFF bytes just
  *      filled by fgets with a complete line) and the initialised subsystem ---------------- */
 __CPROVER_requires(fp != NULL)
-__CPROVER_requires(__CPROVER_is_fresh(buff, CONFIG_BUFF) && vg_fg_len < CONFIG_BUFF && buff[vg_fg_len] == 0)
+/* the line buffer: at least CONFIG_BUFF bytes (symbolic size vg_n1: a constant-size 20 kB array is bit-blasted per SSA version) */
+__CPROVER_requires(vg_n1 >= CONFIG_BUFF && vg_n1 <= VCAP && __CPROVER_is_fresh(buff, vg_n1) && vg_fg_len < CONFIG_BUFF && buff[vg_fg_len] == 0)
 __CPROVER_requires(CTXTAB_INV && CTXSTK_INV && FSTK_INV)
 __CPROVER_requires(CTXNAME_AT(vg_k))
 __CPROVER_requires(CTXID_AT(ctx_state_idx) && CTXID_AT(ctx_state_idx ? ctx_state_idx - 1 : 0) && CTXID_AT(vg_k))
 __CPROVER_requires(FSFP_AT(vg_k2) && fstate_idx >= 1)
-__CPROVER_requires(libast_program_name != NULL && __CPROVER_r_ok(libast_program_name, 1))
-__CPROVER_requires(libast_program_version != NULL && __CPROVER_r_ok(libast_program_version, 1))
 /* sequencing ghosts: this call is for the newest complete line, at a line boundary */
-__CPROVER_requires(vg_deliverable == vg_pl_calls + 1 && !vg_fg_mid)
+__CPROVER_requires(vg_deliverable == vg_pl_calls + 1 && !vg_fg_mid && vg_seq <= 0xffffffffUL)
+PL_BEHAVIOUR
 __CPROVER_assigns(__CPROVER_object_whole(buff), spifconf_vars)
 __CPROVER_assigns(ctx_state, ctx_state_idx, ctx_state_cnt, __CPROVER_object_whole(ctx_state))
 __CPROVER_assigns(fstate, fstate_idx, fstate_cnt, __CPROVER_object_whole(fstate))
-__CPROVER_assigns(vgc)
+__CPROVER_assigns(VG_ALL)
 __CPROVER_frees(ctx_state, fstate)
+/* ---- the excused behaviour is reported to the caller: a ghost DEFINITION (vg_exc is written by nobody
+ *      else), present only where the contract stands for the call ------------------------------- */
+#ifdef VERIF_ROLE_CALLEE_parse_line
+__CPROVER_ensures(vg_exc == (__CPROVER_old(vg_exc) || PL_PREPROC_AGAIN))
+#endif
 /* ---- E0: representation invariants are kept; one more parse_line call -------------------- */
-__CPROVER_ensures(CTXSTK_POST && FSTK_POST && fstate_idx >= 1)
-__CPROVER_ensures(CTXID_AT(ctx_state_idx) && CTXID_AT(vg_k))
-__CPROVER_ensures(FSFP_AT(vg_k2))
+PL_ENS(CTXSTK_POST && FSTK_POST && fstate_idx >= 1)
+PL_ENS(CTXID_AT(ctx_state_idx) && CTXID_AT(vg_k))
+PL_ENS(FSFP_AT(vg_k2))
 __CPROVER_ensures(vg_pl_calls == __CPROVER_old(vg_pl_calls) + 1 && vg_deliverable == __CPROVER_old(vg_deliverable) && !vg_fg_mid)
 __CPROVER_ensures(vg_fg_budget <= __CPROVER_old(vg_fg_budget))
 /* ---- E1: stack motion is by at most one; everything below the touched entries is kept ----- */
-__CPROVER_ensures(fstate_idx == __CPROVER_old(fstate_idx) || fstate_idx == __CPROVER_old(fstate_idx) + 1)
-__CPROVER_ensures(!(vg_k < __CPROVER_old(fstate_idx)) || PL_FS_KEEP(vg_k))
-__CPROVER_ensures(ctx_state_idx == PL_DEPTH0 || ctx_state_idx == (PL_DEPTH0 + 1) % 256 || ctx_state_idx + 1 == PL_DEPTH0)
-__CPROVER_ensures(PL_DEPTH0 == 255 || !(vg_k + 1 < PL_DEPTH0) || PL_CTX_KEEP(vg_k))
+PL_ENS(fstate_idx == __CPROVER_old(fstate_idx) || fstate_idx == __CPROVER_old(fstate_idx) + 1)
+PL_ENS(!(vg_k < __CPROVER_old(fstate_idx)) || PL_FS_KEEP(vg_k))
+PL_ENS(ctx_state_idx == PL_DEPTH0 || ctx_state_idx == (PL_DEPTH0 + 1) % 256 || ctx_state_idx + 1 == PL_DEPTH0)
+PL_ENS(PL_DEPTH0 == 255 || !(vg_k < PL_DEPTH0 && vg_k + 1 < PL_DEPTH0) || PL_CTX_KEEP(vg_k))
 /* a handler is called at most once per line in file mode */
-__CPROVER_ensures(PL_NOCALL || PL_ONECALL)
+PL_ENS(PL_NOCALL || PL_ONECALL)
 /* ---- comment / empty line: nothing happens ---------------------------------------------- */
-__CPROVER_ensures(!PL_COMMENT || (PL_NOCALL && PL_CTX_SAME && fstate_idx == __CPROVER_old(fstate_idx)))
+PL_ENS(!PL_COMMENT || (PL_NOCALL && PL_CTX_SAME && fstate_idx == __CPROVER_old(fstate_idx)))
 /* ---- begin NAME: exactly one BEGIN call to the handler of the looked-up context (context 0
  *      when no registered name matches), receiving the ENCLOSING context's state; its result is
  *      the new context's state; the enclosing entry is left as it was; depth + 1 -------------- */
-__CPROVER_ensures(!(PL_BEGIN && !PL_SKIP && PL_DEPTH0 < 255) ||
+PL_ENS(!(PL_BEGIN && !PL_SKIP && PL_DEPTH0 < 255) ||
                   (PL_ONECALL && PL_LOG(0).kind == VK_BEGIN && PL_LOG(0).in == PL_STATE0 &&
                    ctx_state_idx == PL_DEPTH0 + 1 &&
                    ctx_state[ctx_state_idx].state == PL_LOG(0).out && ctx_state[ctx_state_idx].ctx_id == PL_LOG(0).id &&
@@ -313,30 +544,30 @@ __CPROVER_ensures(!(PL_BEGIN && !PL_SKIP && PL_DEPTH0 < 255) ||
                    fstate_idx == __CPROVER_old(fstate_idx)))
 /* ---- end: exactly one END call to the current context's handler with its state; depth - 1;
  *      the result becomes the enclosing context's state.  Surplus end (depth 0): ignored. ----- */
-__CPROVER_ensures(!(PL_END && PL_DEPTH0 > 0) ||
+PL_ENS(!(PL_END && PL_DEPTH0 > 0) ||
                   (PL_ONECALL && PL_LOG(0).kind == VK_END && PL_LOG(0).id == PL_ID0 && PL_LOG(0).in == PL_STATE0 &&
                    PL_LOG(0).h == context[PL_ID0].handler &&
                    ctx_state_idx == PL_DEPTH0 - 1 && ctx_state[ctx_state_idx].state == PL_LOG(0).out &&
                    fstate_idx == __CPROVER_old(fstate_idx)))
-__CPROVER_ensures(!(PL_END && PL_DEPTH0 == 0) || (PL_NOCALL && PL_CTX_SAME && fstate_idx == __CPROVER_old(fstate_idx)))
+PL_ENS(!(PL_END && PL_DEPTH0 == 0) || (PL_NOCALL && PL_CTX_SAME && fstate_idx == __CPROVER_old(fstate_idx)))
 /* ---- ordinary text: exactly one call to the innermost context's handler, after chomp and
  *      expansion, with the stored state; the result is stored back; depth unchanged ---------- */
-__CPROVER_ensures(!(PL_TEXT && !PL_SKIP) ||
+PL_ENS(!(PL_TEXT && !PL_SKIP) ||
                   (PL_ONECALL && PL_LOG(0).text == buff && PL_LOG(0).id == PL_ID0 && PL_LOG(0).in == PL_STATE0 &&
                    PL_LOG(0).h == context[PL_ID0].handler &&
                    ctx_state_idx == PL_DEPTH0 && ctx_state[ctx_state_idx].state == PL_LOG(0).out && ctx_state[ctx_state_idx].ctx_id == PL_ID0 &&
                    vg_t_chomp < vg_t_expand && vg_t_expand < PL_LOG(0).seq &&
                    fstate_idx == __CPROVER_old(fstate_idx)))
 /* ---- skipped (a handler asked to skip to the end of its context): no delivery -------------- */
-__CPROVER_ensures(!((PL_TEXT || PL_BEGIN) && PL_SKIP) || (PL_NOCALL && PL_CTX_SAME && fstate_idx == __CPROVER_old(fstate_idx)))
+PL_ENS(!((PL_TEXT || PL_BEGIN) && PL_SKIP) || (PL_NOCALL && PL_CTX_SAME && fstate_idx == __CPROVER_old(fstate_idx)))
 /* ---- %directive: never delivered to a handler; context stack untouched ------------------- */
-__CPROVER_ensures(!PL_PCT || (PL_NOCALL && PL_CTX_SAME))
+PL_ENS(!PL_PCT || (PL_NOCALL && PL_CTX_SAME))
 /* ---- a file is pushed only by a %directive; the new entry is a newly opened stream -------- */
-__CPROVER_ensures(fstate_idx == __CPROVER_old(fstate_idx) ||
+PL_ENS(fstate_idx == __CPROVER_old(fstate_idx) ||
                   (PL_PCT && vg_open_streams == __CPROVER_old(vg_open_streams) + 1 &&
                    __CPROVER_is_fresh(fstate[fstate_idx].fp, sizeof(FILE)) && fstate[fstate_idx].line == 1 &&
                    fstate[fstate_idx].flags == 0 && fstate[fstate_idx].outfile == NULL && fstate[fstate_idx].path != NULL))
-__CPROVER_ensures(fstate_idx != __CPROVER_old(fstate_idx) || vg_open_streams == __CPROVER_old(vg_open_streams))
+PL_ENS(fstate_idx != __CPROVER_old(fstate_idx) || vg_open_streams == __CPROVER_old(vg_open_streams))
 /* ---- C11 spawn freedom: a process is spawned only after the directive word "preproc " was
  *      matched, or shell_expand read a backquote / matched %exec( --------------------------- */
 __CPROVER_ensures(vg_spawned == __CPROVER_old(vg_spawned) || vg_saw_preproc != __CPROVER_old(vg_saw_preproc) ||
